@@ -7,6 +7,9 @@ import (
 	"fmt"
 	"google.golang.org/grpc"
 	"google.golang.org/grpc/credentials/insecure"
+	"google.golang.org/grpc/reflection"
+	rpb "google.golang.org/grpc/reflection/grpc_reflection_v1alpha"
+	"google.golang.org/protobuf/reflect/protoregistry"
 	"net"
 	"net/http"
 	"os"
@@ -21,6 +24,7 @@ import (
 	"pgregory.net/rapid"
 
 	"verif/drive"
+	"verif/dyn"
 	"verif/evid"
 	"verif/fixture"
 )
@@ -42,7 +46,7 @@ type SCase struct {
 	Ops []string `json:"ops"` // local | multi-ok | multi-bad | conn:B1.. | drop:B1.. | alter:B3
 }
 
-var opPool = []string{"local", "multi-ok", "multi-bad", "multi-bad", "multi-bad-s", "conn-bad", "conn:B1", "conn:B2", "conn:B3", "drop:B1", "drop:B2", "drop:B3", "alter:B3"}
+var opPool = []string{"local", "multi-ok", "multi-bad", "multi-bad", "multi-bad-s", "conn-bad", "conn-badrule", "conn:B1", "conn:B2", "conn:B3", "drop:B1", "drop:B2", "drop:B3", "alter:B3"}
 
 var probePaths = []string{"/fx/multibads/m1", "/fx/multibads/m2/x", "/un.MultiBadS/M1", "/fx/svca", "/fx/svcb", "/fx/svcc", "/fx/svcd", "/fx/svce", "/fx/multiok/m1", "/fx/multiok/m2/x", "/fx/multiok/m3", "/fx/multibad/m1", "/fx/multibad/m2/x", "/un.MultiBad/M1", "/un.SvcA/Ping"}
 
@@ -78,6 +82,34 @@ func noRefl() *grpc.ClientConn {
 		}
 	})
 	return noReflCC
+}
+
+var (
+	badRuleOnce sync.Once
+	badRuleCC   *grpc.ClientConn
+)
+
+// badRule is a connection to a live backend WITH reflection that serves un.MultiBad, whose last
+// method carries a rule naming an unknown field: RegisterConn fails at the rule level, after the
+// reflection exchange and after the valid methods of the service were processed.
+func badRule() *grpc.ClientConn {
+	badRuleOnce.Do(func() {
+		fixture.Setup()
+		srv := grpc.NewServer()
+		srv.RegisterService(fixture.MultiDesc("MultiBad", &cnt), nil)
+		rpb.RegisterServerReflectionServer(srv, reflection.NewServer(reflection.ServerOptions{
+			Services: srv, DescriptorResolver: dyn.Resolver(fixture.World.Files), ExtensionResolver: protoregistry.GlobalTypes}))
+		ln, err := net.Listen("tcp", "127.0.0.1:0")
+		if err != nil {
+			panic(err)
+		}
+		go srv.Serve(ln)
+		badRuleCC, err = grpc.NewClient(ln.Addr().String(), grpc.WithTransportCredentials(insecure.NewCredentials()))
+		if err != nil {
+			panic(err)
+		}
+	})
+	return badRuleCC
 }
 
 var errBlocked = fmt.Errorf("operation did not return within 15 s")
@@ -120,6 +152,8 @@ func applyNow(mux *larking.Mux, op string) (err error, pnc any) {
 		return mux.RegisterConn(ctx, fixture.Backends[target].CC), nil
 	case "conn-bad":
 		return mux.RegisterConn(ctx, noRefl()), nil
+	case "conn-badrule":
+		return mux.RegisterConn(ctx, badRule()), nil
 	case "drop":
 		mux.DropConn(ctx, fixture.Backends[target].CC)
 	case "alter":
@@ -174,7 +208,7 @@ func CheckSnapshots(c SCase) ([]evid.Violation, sinfo) {
 					return fail(step, "failed-op-observable", "failed-op-observable", "operation failed (%v) but GET %s changed from %d to %d", err, probePaths[i], probesBefore[i], probesAfter[i])
 				}
 			}
-		} else if op == "multi-bad" || op == "multi-bad-s" || op == "conn-bad" {
+		} else if op == "multi-bad" || op == "multi-bad-s" || op == "conn-bad" || op == "conn-badrule" {
 			return fail(step, "harness", "multi-bad-accepted", "%s registration unexpectedly succeeded", op)
 		}
 	}
@@ -378,7 +412,7 @@ func CheckStress(p Plan) ([]evid.Violation, int) {
 			if pnc != nil {
 				report("writer op %s panicked: %v", op, pnc)
 			}
-			if err != nil && op != "multi-bad" && op != "multi-bad-s" {
+			if err != nil && op != "multi-bad" && op != "multi-bad-s" && op != "conn-badrule" {
 				report("writer op %s failed: %v", op, err)
 			}
 		}
@@ -469,7 +503,7 @@ func TestPropStress(t *testing.T) {
 		n := rapid.IntRange(1, 5).Draw(t, "nops")
 		usedOK := false
 		for i := 0; i < n; i++ {
-			op := rapid.SampledFrom([]string{"multi-bad", "multi-ok", "multi-bad-s", "local"}).Draw(t, "wop")
+			op := rapid.SampledFrom([]string{"multi-bad", "multi-ok", "multi-bad-s", "local", "conn-badrule"}).Draw(t, "wop")
 			if op == "multi-ok" {
 				if usedOK {
 					op = "multi-bad"
